@@ -319,6 +319,24 @@ class Batch:
         out = dict(rule=m["rule"], component=comp)
         if comp in e.get("o", {}):
             out["actual"] = self.intern.value(e["o"][comp])
+            # expected value: walk the reference system along the labels of this case (plain replays only)
+            try:
+                node = None
+                for ev in self.events:
+                    if ev.get("case") != m["caseno"] or ev.get("i", 0) != e.get("i", 0):
+                        continue
+                    if ev["cls"] == "new":
+                        node = ev["root"]
+                    elif ev["cls"] in ("valid", "cont", "choose", "reg", "setvar") and node:
+                        node = self.nodes[node - 1]["kids"].get(ev["lab"])
+                    elif ev["cls"] not in ("case", "skip", "regfree"):
+                        node = None
+                    if ev is e:
+                        break
+                if node:
+                    out["expected"] = self.intern.value(self.nodes[node - 1]["o"][comp])
+            except (KeyError, IndexError, TypeError):
+                pass
         return out
 
 
